@@ -18,9 +18,11 @@
     `CheckpointManager::rollback` = `restore_from_bytes`; the router re-attaches nothing.
   * `RetentionManager::enforce`: list = blob `by_tag` order (hash-set order: an input here),
     stable sort by `created_at` descending, delete everything after the first `max`.
-  * `CheckpointStorage::find_by_id_or_name` (used by `load` = rollback, and by
-    `CheckpointManager::delete`): first entry of that newest-first listing whose id OR name equals
-    the target string; `CheckpointManager::list(limit)`: the first `limit` entries of it.
+  * `CheckpointStorage::find_by_id_or_name` (used by `load` = rollback): the entry of that
+    newest-first listing whose ID equals the target string, else the first entry whose NAME equals
+    it (fff752bd; the earlier one-pass rule is `resolveOld`, which is also what
+    `CheckpointManager::delete` still does with its own inline lookup);
+    `CheckpointManager::list(limit)`: the first `limit` entries of it.
 
   Not modelled: table_count / row_counters (no observable effect with the default config),
   tombstones of the entity index (ids are not observable), HNSW approximation (the cached index
@@ -155,6 +157,17 @@ def clear (_ : Store) : Store := {}
 
 /-- `snapshot_bytes`: every slab is serialised -/
 def snapshot (s : Store) : Store := s
+
+/-- `snapshot_bytes` with the per-vector codec of `EmbeddingSlab::snapshot` made explicit: the
+    embedding-slab copy of every vector goes through the snapshot's compression (`cz` = decompress ∘
+    compress: sparse / tensor-train / dense, float arithmetic outside this model); the metadata slab,
+    which holds the same `_embedding` field exactly, does not.  `snapshot` is `snapshotWith id`:
+    the model's vectors (integers, constant `_embedding`s) are ones the codec returns exactly
+    (`Props.snapshot_codec_exact_on_stored_vectors`); a vector it does not return exactly comes back
+    perturbed, because `get` on the image prefers the slab copy
+    (`Props.dense_embedding_perturbed_witness`). -/
+def snapshotWith (cz : Int → Int) (s : Store) : Store :=
+  { s with eslab := s.eslab.map fun p => (p.1, cz p.2) }
 
 def reput (img : Store) (acc : Store) (k : Key) : Store :=
   match img.get k with
@@ -628,9 +641,25 @@ def nameOf (d : Db) (i : Nat) : Option Nat := (blobOf d i).map (·.name)
     string that is also the id of checkpoint `i`). -/
 def ckMatches (d : Db) (x : Nat) (p : Nat × Nat) : Bool := p.1 = x || nameOf d p.1 = some x
 
-/-- `CheckpointStorage::find_by_id_or_name`: the FIRST entry of the newest-first listing whose id
-    or name is `x` (`ord` = the `by_tag` order of this call, it decides among equal timestamps) -/
+/-- `cp.id == id_or_name` -/
+def ckIdIs (x : Nat) (p : Nat × Nat) : Bool := p.1 = x
+
+/-- `cp.name == id_or_name` -/
+def ckNameIs (d : Db) (x : Nat) (p : Nat × Nat) : Bool := nameOf d p.1 = some x
+
+/-- `CheckpointStorage::find_by_id_or_name` (as of /repo fff752bd), two passes over the newest-first
+    listing: the entry whose ID is `x` if there is one (`checkpoints.iter().find(|cp| cp.id == x)`),
+    otherwise the FIRST entry whose NAME is `x` (`ord` = the `by_tag` order of this call, it decides
+    among equal timestamps) -/
 def resolve (d : Db) (ord : List Nat) (x : Nat) : Option Nat :=
+  match (ckList ord d.st.cps).find? (ckIdIs x) with
+  | some p => some p.1
+  | none => ((ckList ord d.st.cps).find? (ckNameIs d x)).map (·.1)
+
+/-- `find_by_id_or_name` BEFORE fff752bd: one pass, the FIRST entry of the newest-first listing
+    whose id OR name is `x` — a newer checkpoint NAMED with an older one's id string shadowed it
+    (`Props.rollback_id_shadowed_by_name_witness`) -/
+def resolveOld (d : Db) (ord : List Nat) (x : Nat) : Option Nat :=
   ((ckList ord d.st.cps).find? (ckMatches d x)).map (·.1)
 
 /-- `CheckpointStorage::load` -/
@@ -645,9 +674,23 @@ def doRollback (d : Db) (x : Nat) (ord : List Nat) : Db × Res :=
   | none => (d, .err .notFound)
   | some c => ({ d with st := Store.restoreFrom c.img d.st }, .ok)
 
-/-- `CheckpointManager::delete`: the first listed checkpoint whose id or name is `x` -/
+/-- `CheckpointStorage::load` / `CheckpointManager::rollback` over the pre-fix target resolution -/
+def loadCkOld (d : Db) (ord : List Nat) (x : Nat) : Option Ckpt :=
+  match resolveOld d ord x with
+  | some i => blobOf d i
+  | none => none
+
+def doRollbackOld (d : Db) (x : Nat) (ord : List Nat) : Db × Res :=
+  match loadCkOld d ord x with
+  | none => (d, .err .notFound)
+  | some c => ({ d with st := Store.restoreFrom c.img d.st }, .ok)
+
+/-- `CheckpointManager::delete` does NOT go through `find_by_id_or_name`: it has its own one-pass
+    lookup over the listing, `find(|cp| cp.id == x || cp.name == x)`, which fff752bd left as it
+    was — so a delete by id still reaches a newer checkpoint NAMED with that id string
+    (`Props.ckdel_id_shadowed_by_name_witness`; manual deletes are outside the property) -/
 def doCkDel (d : Db) (x : Nat) (ord : List Nat) : Db × Res :=
-  match resolve d ord x with
+  match resolveOld d ord x with
   | none => (d, .err .notFound)
   | some i => ({ d with st := { d.st with cps := alDel d.st.cps i } }, .ok)
 
